@@ -129,10 +129,15 @@ func (d *dumpStruct) loopHandleKV(s reflect.StructField, tv reflect.Value, isNee
 		mapLen := tv.Len()
 		tmpIndex := 0
 		for mapObj.Next() {
-			// 把 key 处理成字符串
-			d.buf.WriteByte('"')
-			d.loopHandleKV(d.nullStructFiled, mapObj.Key(), false)
-			d.buf.WriteByte('"')
+			// 把 key 处理成字符串(字符串/bool 类型在 loopHandleKV 里已经加了双引号)
+			switch mapObj.Key().Kind() {
+			case reflect.String, reflect.Bool:
+				d.loopHandleKV(d.nullStructFiled, mapObj.Key(), false)
+			default:
+				d.buf.WriteByte('"')
+				d.loopHandleKV(d.nullStructFiled, mapObj.Key(), false)
+				d.buf.WriteByte('"')
+			}
 			d.buf.WriteString(":")
 			d.loopHandleKV(d.nullStructFiled, mapObj.Value(), false)
 			if tmpIndex < mapLen-1 {
